@@ -3,11 +3,11 @@ CONSTANTS
   NK = 2
   MaxSeq = 3
   NL = 3
-  MemCap = 1
+  MemCap = 2
   FileCap = 2
-  MaxSnaps = 0
-  MaxPins = 1
-  MaxFiles = 7
+  MaxSnaps = 1
+  MaxPins = 0
+  MaxFiles = 6
   KeepExtra = FALSE
   Ops = {0, 1}
   Bug_RangeMin = FALSE
@@ -20,8 +20,8 @@ CONSTANTS
   Bug_ImmDropEarly = FALSE
   Bug_FlushDeepDuringCompaction = FALSE
   Bug_ExpandKeepsParents = FALSE
-INVARIANTS ReadCorrect WellFormed NothingLiveDeleted SeqSane
-PROPERTIES Invisible NoLeakAfterPass ImplementsKV
+INVARIANTS SeqSane
+PROPERTIES ImplementsKV
 CONSTRAINT MCBound
 VIEW MCView
 CHECK_DEADLOCK FALSE
